@@ -144,6 +144,76 @@ pub fn run(cfg: &Cfg, rep: &mut Report) {
         }
     }
 
+    // ---- step 1b: short class ranges with every start and end around every case-related code
+    // point (the compressed fold tables are walked from arbitrary range ends, not only from
+    // block-aligned ones)
+    {
+        let nt = cd.nontrivial_legacy.union(&cd.nontrivial_unicode).intersect(&scalars);
+        let mut base = String::new();
+        for c in nt.iter() {
+            base.push(char::from_u32(c).unwrap());
+        }
+        let base_set = nt.clone();
+        let mut seen: std::collections::HashSet<(u32, u32)> = std::collections::HashSet::new();
+        for (flags, unicode, mname) in modes() {
+            seen.clear();
+            for c in nt.iter() {
+                for lo in c.saturating_sub(2)..=c + 1 {
+                    for hi in lo..=(c + 3).min(MAX_CP) {
+                        if hi < c.saturating_sub(1) || !seen.insert((lo, hi)) {
+                            continue;
+                        }
+                        idx += 1;
+                        let h = fnv64(format!("rng|{}|{}|{}", mname, lo, hi).as_bytes());
+                        if !cfg.mine(h) || skip(idx) {
+                            continue;
+                        }
+                        if idx % 4096 == 0 {
+                            rep.begin(idx, &J::obj().set("construct", "short_range").set("lo", lo).set("hi", hi).set("flags", flags.to_string()));
+                        }
+                        let esc = |c: u32, v: &mut Vec<u32>| {
+                            if matches!(char::from_u32(c), Some('\\' | ']' | '[' | '^' | '-')) {
+                                v.push('\\' as u32);
+                            }
+                            v.push(c);
+                        };
+                        let mut pat = vec!['[' as u32];
+                        esc(lo, &mut pat);
+                        pat.push('-' as u32);
+                        esc(hi, &mut pat);
+                        pat.push(']' as u32);
+                        let Guarded::Ok(Ok(re)) = engine::compile(&pat, flags, false) else { continue };
+                        let rng = RangeSet::from_range(lo, hi);
+                        // haystack: all case-related characters plus the range itself
+                        let mut hay = base.clone();
+                        for x in rng.subtract(&base_set).intersect(&scalars).iter() {
+                            hay.push(char::from_u32(x).unwrap());
+                        }
+                        let universe = base_set.union(&rng).intersect(&scalars);
+                        let want = cd.saturate(&rng, unicode).intersect(&universe);
+                        rep.inc("short_ranges");
+                        match matched_set(&re, &hay) {
+                            Ok(got) => {
+                                rep.eval(h, true);
+                                if got != want {
+                                    let (o, e) = describe_diff(&got, &want);
+                                    rep.violation(violation(
+                                        "C10",
+                                        "a short class range under i matches a different set than the union of its members' equivalence classes",
+                                        J::obj().set("construct", "short_range").set("lo", lo).set("hi", hi).set("flags", flags.to_string()).set("pattern", engine::cps_to_string_lossy(&pat)).set("pattern_cps", J::Arr(pat.iter().map(|&c| J::from(c)).collect())).set("check", "c10"),
+                                        o,
+                                        e,
+                                    ));
+                                }
+                            }
+                            Err(e) => rep.violation(violation("C10", "scan failed", J::obj().set("lo", lo).set("hi", hi).set("flags", flags.to_string()).set("check", "c10"), e, "single characters".into())),
+                        }
+                    }
+                }
+            }
+        }
+    }
+
     // ---- step 2: every code point as a literal, run on the non-trivial haystack
     for (flags, unicode, mname) in modes() {
         // haystack: all non-trivial code points of both relations (the engine's extra partners
